@@ -885,6 +885,9 @@ m("c13-cap-compares-truncated-mint", "C13", "x/coinomics/keeper/inflation.go",
 m("c12-upgrade-repair-unconditional", "C12", "app/upgrades/v1.8.0/upgrades.go",
   "\tif !balISLM.Amount.Sub(amt.Amount).Equal(shares) {", "\tif balISLM.Amount.LT(amt.Amount) {",
   "keeps-the-equation", "the one-off repair of the DAO total no longer compares with the shares")
+m("c17-zero-target-unguarded", "C17", "x/feemarket/keeper/eip1559.go",
+  "\tif parentGasTarget == 0 {", "\tif parentGasTarget == 0 && parentGasUsed == 0 {",
+  "target-divisor-non-zero", "the zero-target guard only covers empty blocks")
 for prop in ("C16", "C07"):
     m("c%s-gas-meter-without-precharge" % prop[1:], prop, "precompiles/common/precompile.go",
       "sdk.NewGasMeter(initialGas + contract.Gas)", "sdk.NewGasMeter(contract.Gas)",
